@@ -9,6 +9,7 @@ import (
 	"runtime"
 	"sort"
 	"strings"
+	"sync/atomic"
 	"time"
 
 	"github.com/canopy-network/canopy/lib"
@@ -383,7 +384,7 @@ func runFullQueueCase(w *world, topic lib.Topic, aPackets, bPackets int, aFirst 
 func runAttributionCase(w *world, claimOther, strict bool) (string, []finding, string) {
 	// fresh nodes: the peer sets of the world's nodes must not remember earlier cases
 	dialler, answerer, third := newNode(), newNode(), newNode()
-	ca, cb := newMemPipe("dialler", "answerer")
+	ca, cb := newMemPipeCopy("dialler", "answerer")
 	defer func() {
 		dialler.p.Stop()
 		answerer.p.Stop()
@@ -449,7 +450,7 @@ func runSessionReplaceCase(packets int, through float64) (string, []finding, str
 		panic(err)
 	}
 	D, S := newNodeWithKey(dpriv), newNode()
-	c1d, c1s := newMemPipe("D", "S")
+	c1d, c1s := newMemPipeCopy("D", "S")
 	gs := newGatedConn(c1s)
 	meta := &lib.PeerMeta{NetworkId: 1, ChainId: 1}
 	connect := func(d *node, cd net.Conn, cs net.Conn) (lib.ErrorI, lib.ErrorI) {
@@ -483,11 +484,11 @@ func runSessionReplaceCase(packets int, through float64) (string, []finding, str
 	}
 	select {
 	case <-gs.blocked:
-	case <-time.After(5 * time.Second):
+	case <-time.After(20 * time.Second):
 		return "session-replace:link-never-stalled", nil, "the whole message left before the link stalled"
 	}
 	hadOld := S.p.PeerSet.Has(D.pub)
-	c2d, c2s := newMemPipe("D2", "S")
+	c2d, c2s := newMemPipeCopy("D2", "S")
 	defer func() { c2d.Close(); c2s.Close() }()
 	eD, eS := connect(D2, c2d, c2s)
 	obs := fmt.Sprintf("packets=%d through=%.1f old-session-still-registered=%v second-session: dialler=%v answerer=%v", packets, through, hadOld, eD != nil, eS != nil)
@@ -531,6 +532,72 @@ func runSessionReplaceCase(packets int, through float64) (string, []finding, str
 		fmt.Fprintf(os.Stderr, "session-replace debug: %s delivered=%d follow-up=%d findings=%v\n", obs, n, gotSmall, fs)
 	}
 	return fmt.Sprintf("session-replace:delivered=%d:follow-up=%d", n, gotSmall), fs, obs
+}
+
+// throttledConn makes every socket write take a moment, so that a bulk transfer lasts longer than a heartbeat interval.
+type throttledConn struct {
+	*memConn
+	per time.Duration
+	n   atomic.Int64
+}
+
+func (t *throttledConn) Write(b []byte) (int, error) {
+	if t.n.Add(1)%64 == 0 {
+		time.Sleep(64 * t.per) // short sleeps are rounded up to the timer granularity: sleep rarely, for longer
+	}
+	return t.memConn.Write(b)
+}
+
+// runBulkUnderHeartbeats: two real nodes joined through P2P.AddPeer (real handshake, encrypted connection, real send /
+// receive / heartbeat goroutines). S sends several multi-packet messages on a link slow enough for the transfer to
+// span a few heartbeat intervals: pings and pongs share the connection with the bulk data. Every message D receives
+// must be one that was sent, whole and unmodified, and the connection must survive. The timing only shapes the
+// scenario (how many pings fall inside the transfer); the oracle does not depend on it.
+func runBulkUnderHeartbeats(messages, packets int) (string, []finding, string) {
+	D, S := newNode(), newNode()
+	cd, cs := newMemPipeCopy("D", "S")
+	frames := messages * packets * (K.MaxPacketSize/1000 + 1)
+	per := time.Duration(int64(3*K.HeartbeatInterval) / int64(frames))
+	ts := &throttledConn{memConn: cs, per: per}
+	meta := &lib.PeerMeta{NetworkId: 1, ChainId: 1}
+	defer func() { D.p.Stop(); S.p.Stop(); cd.Close(); cs.Close() }()
+	errS := make(chan lib.ErrorI, 1)
+	go func() {
+		errS <- S.p.AddPeer(ts, &lib.PeerInfo{Address: &lib.PeerAddress{NetAddress: "mem://D", PeerMeta: meta}}, false, false)
+	}()
+	eD := D.p.AddPeer(cd, &lib.PeerInfo{IsOutbound: true, Address: &lib.PeerAddress{PublicKey: bytes.Clone(S.pub), NetAddress: "mem://S", PeerMeta: meta}}, false, false)
+	if eS := <-errS; eD != nil || eS != nil {
+		return "bulk-under-heartbeats:session-refused", []finding{{"C18:valid-traffic-closed-connection", fmt.Sprint("session refused: ", eD, eS)}}, ""
+	}
+	var wires [][]byte
+	t0 := time.Now()
+	for i := 0; i < messages; i++ {
+		m := mkMessage(1+i%4, packets*K.MaxDataChunkSize-100-i)
+		wires = append(wires, mustMarshal(&lib.StringWrapper{Value: string(m.payload)}))
+		if e := S.p.PeerSet.SendTo(D.pub, lib.Topic_BLOCK, &lib.StringWrapper{Value: string(m.payload)}); e != nil {
+			return "bulk-under-heartbeats:send-refused", nil, e.Error()
+		}
+	}
+	var fs []finding
+	got := 0
+	deadline := time.After(12*K.HeartbeatInterval + 20*time.Second)
+	for got < messages && len(fs) == 0 {
+		select {
+		case m := <-D.p.Inbox(lib.Topic_BLOCK):
+			if got >= len(wires) || !bytes.Equal(m.Message, wires[got]) {
+				what := fmt.Sprintf("message %d of %d arrived modified (%d bytes, sent %d)", got, messages, len(m.Message), len(wires[min(got, len(wires)-1)]))
+				fs = append(fs, finding{"C18:modified:bulk-under-heartbeats", what})
+			}
+			got++
+		case <-deadline:
+			if !S.p.PeerSet.Has(D.pub) || !D.p.PeerSet.Has(S.pub) {
+				fs = append(fs, finding{"C18:valid-traffic-closed-connection:bulk-under-heartbeats", fmt.Sprintf("the connection was closed during a bulk transfer of %d valid messages (%d delivered)", messages, got)})
+			}
+			return fmt.Sprintf("bulk-under-heartbeats:delivered=%d-of-%d:timeout", got, messages), fs, ""
+		}
+	}
+	span := time.Since(t0)
+	return fmt.Sprintf("bulk-under-heartbeats:%d-messages:all-whole", messages), fs, fmt.Sprintf("transfer spanned %.1f heartbeat intervals", float64(span)/float64(K.HeartbeatInterval))
 }
 
 func runSequentialSmall(r *mc.Run, w *world) *seqStats {
@@ -614,7 +681,7 @@ func runSequentialSmall(r *mc.Run, w *world) *seqStats {
 	for _, sr := range []struct {
 		packets int
 		through float64
-	}{{3, 0.5}} {
+	}{{3, 0.5}, {2, 0.5}, {3, 1.5}} {
 		name := fmt.Sprintf("session-replace:%d:%.1f", sr.packets, sr.through)
 		run := func() (string, []finding, string) {
 			type out struct {
@@ -647,6 +714,22 @@ func runSequentialSmall(r *mc.Run, w *world) *seqStats {
 		st.malformedCases++
 		st.steps += 4 + sr.packets
 		st.outcomes[class]++
+	}
+	{
+		name := "bulk-under-heartbeats:4x3"
+		class, fs, obs := runBulkUnderHeartbeats(4, 3)
+		if len(fs) > 0 {
+			if _, fs2, _ := runBulkUnderHeartbeats(4, 3); len(fs2) == 0 {
+				fs = nil // not reproducible: timing, not a defect
+			}
+		}
+		if len(fs) > 0 {
+			report(r, name, fs[:1], obs)
+		}
+		st.malformedCases++
+		st.steps += 12
+		st.outcomes[class]++
+		r.AddSample(map[string]any{"family": "bulk transfer sharing the connection with heartbeats (real nodes, free-running)", "case": name, "observation": obs, "verdict": verdict(fs)})
 	}
 	for _, fq := range []struct {
 		a, b   int
